@@ -234,7 +234,15 @@ func short(err error) string {
 	return s
 }
 
+// the LogQL request text of the site run last (emitted with the case: the tree-level tie of checks/c10.py re-plans it
+// through harness logqlsql and the extracted planner/renderer model)
+var lastLogql struct {
+	q       string
+	cluster bool
+}
+
 func runLogql(q string, cluster bool, direct bool) ([]string, string) {
+	lastLogql.q, lastLogql.cluster = q, cluster
 	script, err := logql_parser.Parse(q)
 	if err != nil {
 		return nil, "parse: " + short(err)
@@ -864,6 +872,8 @@ type caseRec struct {
 	Sql   string `json:"sql"` // hex
 	Stmt  int    `json:"stmt"`
 	Rej   string `json:"rej,omitempty"`
+	Logql string `json:"logql,omitempty"` // hex: the LogQL request text (first statement of a LogQL site only)
+	Clu   bool   `json:"cluster,omitempty"`
 }
 
 type runner struct {
@@ -897,10 +907,12 @@ func (rn *runner) baseFor(st site, mk, mklit string, stmt int, nstmts int) int {
 
 func (rn *runner) one(st site, v, class string) {
 	var r res
+	lastLogql.q = ""
 	p := hx.Catch(func() { r = st.run(v) })
 	if p != "" {
 		r.rej = "panic: " + p
 	}
+	req, reqCluster := lastLogql.q, lastLogql.cluster
 	if r.rej != "" || len(r.sqls) == 0 {
 		rn.id++
 		rn.out.Put(caseRec{Kind: "rej", ID: rn.id, Site: st.name, Class: class, Val: hx.Hex(v), Rej: r.rej})
@@ -916,6 +928,9 @@ func (rn *runner) one(st site, v, class string) {
 			Want: hx.Hex(r.want), Sql: hx.Hex(q), Stmt: i, Base: -1}
 		if r.mode != "raw" {
 			c.Base = rn.baseFor(st, r.mk, r.mklit, i, len(r.sqls))
+		}
+		if i == 0 && req != "" {
+			c.Logql, c.Clu = hx.Hex(req), reqCluster
 		}
 		rn.out.Put(c)
 	}
